@@ -343,6 +343,7 @@ using Val = std::variant<std::monostate, Bit, UInt>;
 struct BuiltDesign {
 	vh::Built b;
 	std::vector<std::unique_ptr<PipeBalanceGroup>> groups;
+	std::map<int, hlim::BaseNode*> cntRegs; // step index of an autonomous counter -> its register node
 };
 
 template<class T> T regOpt(const T &v, const std::string &rst, const RegisterSettings &st = {}) {
@@ -368,7 +369,8 @@ void buildMemory(const Recipe &r, Variant var, BuiltDesign &res) {
 }
 
 // N: stages per group (TWIN / LAGTWIN)
-void buildDesign(const Recipe &r, Variant var, const std::vector<size_t> &N, BuiltDesign &res) {
+// cntLag: (LAGTWIN) number of registers the retiming put between an autonomous counter and the outputs, measured on the hinted design
+void buildDesign(const Recipe &r, Variant var, const std::vector<size_t> &N, BuiltDesign &res, const std::map<int, size_t> &cntLag = {}) {
 	res.b.clock.emplace(ClockConfig{.absoluteFrequency = 100'000'000, .name = "clk",
 		.resetType = r.reset == "sync" ? ClockConfig::ResetType::SYNCHRONOUS : ClockConfig::ResetType::NONE,
 		.memoryResetType = ClockConfig::ResetType::NONE, .initializeRegs = true});
@@ -395,7 +397,7 @@ void buildDesign(const Recipe &r, Variant var, const std::vector<size_t> &N, Bui
 			const Step &s = r.steps[i]; const std::string &k = s.kind;
 			// operand b may be an autonomous counter: the lag twin delays it by the number of stages that cross this node
 			auto vecB = [&]() -> UInt {
-				if (var == LAGTWIN && s.b >= 0 && r.steps[s.b].autonomous) return std::get<UInt>(delayed(vals[s.b], s.h, r.steps[s.b].rst));
+				if (var == LAGTWIN && s.b >= 0 && r.steps[s.b].autonomous) { auto it = cntLag.find(s.b); return std::get<UInt>(delayed(vals[s.b], it == cntLag.end() ? 0 : it->second, r.steps[s.b].rst)); }
 				return vec(s.b);
 			};
 			if (k == "gin") {
@@ -439,6 +441,7 @@ void buildDesign(const Recipe &r, Variant var, const std::vector<size_t> &N, Bui
 				UInt c = BitWidth(s.w); UInt step = vh::constU(bitsOf(s.k, s.w)); UInt rv = vh::constU(s.rst);
 				UInt next = s.fl ? UInt(rotl(c, 1) ^ step) : UInt(c + step);
 				c = reg(next, rv); vals[i] = c;
+				res.cntRegs[(int) i] = c.node()->getNonSignalDriver(0).node;
 			}
 			else if (k == "negreg") {
 				if (var != HINTED) vals[i] = vals[s.a];
@@ -481,6 +484,27 @@ void dumpGraph(hlim::Circuit &c, const vh::Built &b, const char *tag, std::ostre
 	}
 }
 
+// register counts on all data paths from `from` to the output pins (the counter's own feedback loop is not followed)
+std::set<size_t> regsBetween(hlim::Circuit &c, const vh::Built &b, hlim::BaseNode *from) {
+	std::set<size_t> res;
+	std::function<void(hlim::BaseNode*, size_t, std::vector<hlim::BaseNode*>&, size_t&)> walk = [&](hlim::BaseNode *n, size_t regs, std::vector<hlim::BaseNode*> &stack, size_t &budget) {
+		if (budget == 0) { res.insert(~size_t(0)); return; } budget--;
+		if (n == from) { res.insert(regs); return; }
+		if (std::find(stack.begin(), stack.end(), n) != stack.end()) return;
+		stack.push_back(n);
+		bool isReg = dynamic_cast<hlim::Node_Register*>(n) != nullptr;
+		for (size_t i = 0; i < n->getNumInputPorts(); i++) {
+			if (isReg && i != hlim::Node_Register::DATA) continue;
+			if (n->inputIsEnable(i)) continue;
+			auto d = n->getDriver(i); if (!d.node || hlim::outputIsDependency(d)) continue;
+			walk(d.node, regs + (isReg ? 1 : 0), stack, budget);
+		}
+		stack.pop_back();
+	};
+	for (auto *p : b.outPins) { std::vector<hlim::BaseNode*> stack; size_t budget = 200000; walk(p, 0, stack, budget); }
+	return res;
+}
+
 void printTrace(const char *tag, const std::vector<std::vector<std::string>> &tr, std::ostream &o) {
 	for (size_t c = 0; c < tr.size(); c++) { o << tag << ' ' << c; for (auto &s : tr[c]) o << ' ' << s; o << '\n'; }
 }
@@ -511,6 +535,7 @@ void runCase(uint64_t k, uint64_t sub, const Recipe &r, Rng &rng, std::ostream &
 	std::vector<std::vector<std::string>> trH, trT, trL;
 	std::ostringstream gH, gT;
 	size_t latches = 0, dummy = 0;
+	std::map<int, size_t> cntLag; bool lagDefined = true;
 	try {
 		{
 			DesignScope design; BuiltDesign d; buildDesign(r, HINTED, {}, d);
@@ -518,14 +543,21 @@ void runCase(uint64_t k, uint64_t sub, const Recipe &r, Rng &rng, std::ostream &
 			for (size_t g = 0; g < r.groups.size(); g++) N[g] = d.groups[g]->getNumPipeBalanceGroupStages();
 			if (r.cls != "memory") dumpGraph(design.getCircuit(), d.b, "hn", gH, latches);
 			trH = vh::simulate(design.getCircuit(), d.b, st);
+			for (auto &[step, node] : d.cntRegs) {
+				bool alive = false; for (auto &up : design.getCircuit().getNodes()) if (up.get() == node) alive = true;
+				if (!alive) { cntLag[step] = 0; continue; }
+				auto cnts = regsBetween(design.getCircuit(), d.b, node);
+				if (cnts.size() > 1 || cnts.count(~size_t(0))) lagDefined = false;
+				cntLag[step] = cnts.empty() ? 0 : *cnts.begin();
+			}
 		}
 		{
 			DesignScope design; BuiltDesign d; buildDesign(r, TWIN, N, d);
 			if (r.cls != "memory") { design.postprocess(); dumpGraph(design.getCircuit(), d.b, "tn", gT, dummy); } // memory: the twin is the design as written, not post-processed
 			trT = vh::simulate(design.getCircuit(), d.b, st);
 		}
-		if (r.cls == "autonomous") {
-			DesignScope design; BuiltDesign d; buildDesign(r, LAGTWIN, N, d);
+		if (r.cls == "autonomous" && lagDefined) {
+			DesignScope design; BuiltDesign d; buildDesign(r, LAGTWIN, N, d, cntLag);
 			design.postprocess();
 			trL = vh::simulate(design.getCircuit(), d.b, st);
 		}
@@ -534,7 +566,9 @@ void runCase(uint64_t k, uint64_t sub, const Recipe &r, Rng &rng, std::ostream &
 		o << "error " << msg.substr(0, 300) << "\nend\n"; out << o.str(); return;
 	}
 	for (size_t g = 0; g < N.size(); g++) o << "stages " << g << ' ' << N[g] << '\n';
-	o << "info latches=" << latches << '\n';
+	o << "info latches=" << latches << " lagdefined=" << lagDefined << " lags=";
+	if (cntLag.empty()) o << '-'; { bool first = true; for (auto &[step, l] : cntLag) { o << (first ? "" : ",") << step << ':' << l; first = false; } }
+	o << '\n';
 	o << gH.str() << gT.str();
 	for (size_t c = 0; c < st.cycles.size(); c++) { o << "s " << c; for (auto &s : st.cycles[c]) o << ' ' << s; o << '\n'; }
 	printTrace("h", trH, o); printTrace("t", trT, o); if (!trL.empty()) printTrace("l", trL, o);
